@@ -259,8 +259,8 @@ Definition spec_sign (c : sign_case) : bool :=
                        && match sg_status o with Done | Inconclusive => true | _ => false end) (w_obs c)
   && match filter (fun o => match sg_status o with Done => true | _ => false end) (w_obs c) with
      | [] => true
-     | o0 :: _ as done =>
-         forallb (fun o => N.eqb (sg_sig o) (sg_sig o0) && sg_valid o && sg_low_s o) done
+     | o0 :: rest =>   (* (an [as] pattern here would bind the TAIL only: o0 must be checked too) *)
+         forallb (fun o => N.eqb (sg_sig o) (sg_sig o0) && sg_valid o && sg_low_s o) (o0 :: rest)
      end.
 
 Definition agree_sign (c : sign_case) : bool :=
